@@ -28,6 +28,12 @@ CHECKS = {
          "4-32 goroutines run seeded reader programs (postings, stored visits incl. early-stopping and blocking visitors, ids, doc values, thesauri, merges) over fresh shared segments; every answer is compared with the sequential answer, bytes handed to visitors are re-checked after yielding, and the race detector observes all zapx accesses.", "§3 C11"),
  "C12": ("exploration", "runtime monitoring: thesaurus oracle (term lists, pair sets under exclusion bitmaps, prealloc reuse) over seeded synonym batches",
          "For every thesaurus, term and exclusion bitmap of every generated batch the exact set of (synonym, document) pairs is compared with the model, in memory and after persist+open.", "§3 C12"),
+ "C17": ("fault_enumeration", "runtime monitoring with fault injection: failing io.Writer at every byte offset; RLIMIT_FSIZE window at every offset / flush boundary for Persist and Merge",
+         "Write failures are injected at every byte offset (WriteTo) and at every offset or flush-boundary class (Persist, Merge with shrunk buffers) of the outputs of seeded inputs; each faulted run must return an error and leave no file, each unfaulted run a complete file. Enumeration of the fault points of the explored inputs, not of all inputs.", "§3 C17"),
+ "C18": ("fault_enumeration", "runtime monitoring with cancellation injected inside every write callback of Merge (logical time) + scheduled closes under the race detector",
+         "For every seeded merge plan the close channel is closed before the call and inside each of the W write callbacks (repeated sweeps, since section order varies); each point must end as (closed error, no file) or (success, complete correct file).", "§3 C18"),
+ "C20": ("exploration", "runtime monitoring: exhaustive balanced AddRef/DecRef/Close sequences with /proc inspection and reads between operations + concurrent holders under the race detector",
+         "Every balanced reference sequence up to the bound is executed on a freshly opened file with reads between operations and /proc/self/maps + /proc/self/fd inspected after each step; concurrent holders release under the race detector. Exhaustive for part A up to the bound.", "§3 C20"),
 }
 NOT_YET = {}
 
